@@ -475,6 +475,8 @@ def jobs_for(t):
             if not consistent(ev):
                 continue
             for d1, d2 in itt.combinations(ds, 2):
+                if TARGET_TAGGED in d1[0] and TARGET_TAGGED in d2[0]:
+                    continue  # two different distributions under the one tag pi* would be ambiguous input
                 i += 1
                 if i % stride == offset % stride:
                     yield ev, [d1, d2]
